@@ -15,10 +15,10 @@ CLAIMED = {
             "Lean theorems (BB/Props/C12.lean): canonical form is preserved by every step for every direction/colour/sweep flag, hence holds after every history from the blank tape; a canonical span is the run-length encoding of its cells, so equality of tapes is equality of cells; marks, blank, at_edge, counts, span_lens, blocks, signature and sig_compatible are characterised from the unrolled cells. Model tied to the real Tape by the correspondence check on exhaustive short and random long step sequences (all observers after every step), plus a cell-level replay oracle.",
             "Trusted: Lean kernel + standard axioms; hand-written model BB/Model/Tape.lean to the extent the correspondence samples it; Lean compiler for the driver; vlib orchestration (incl. the cell-level replay); rustc.",
             "Lean 4 proof (invariant by induction over histories) + differential correspondence", "5/C12"),
-    "C13": ("exploration",
-            "Correspondence of the Lean model of instrs.rs parsing/printing with the real tcompile/show_comp/read_*/show_* on every token and random tables, judged against the generator's own table; malformed stream compared code-vs-model. Proof level pending BB/Props/C13.",
-            "Trusted: Lean compiler for the driver, vlib orchestration, rustc.",
-            "Lean 4 model + differential correspondence + generator oracle", "5/C13"),
+    "C13": ("proof",
+            "Lean theorems (BB/Props/C13.lean) for ALL tables with 1..26 states x 1..10 colours and any subset of slots undefined: parsing the standard text puts every instruction at its row/column slot (from_slots), text -> table -> text is the identity (show_from), table -> text -> table is the identity, and every instruction / slot / state token round-trips. Model tied to the real tcompile/show_comp/read_*/show_* by the correspondence check on every token, random tables (judged against the generator's own table) and a malformed stream.",
+            "Trusted: Lean kernel + standard axioms; hand-written model BB/Model/Instrs.lean to the extent the correspondence samples it; Lean compiler for the driver; vlib orchestration; rustc. Guard stated in the theorems: one-digit colours, letters A..Z (beyond that the real code stops round-tripping).",
+            "Lean 4 proof (round-trip laws) + differential correspondence", "5/C13"),
     "C04": ("exploration",
             "Correspondence of the Lean model of reason.rs (whole cant_reach) with the real py_cant_halt/blank/spin_out over exhaustive 2x2, slices or all of 3x2/2x3, random and named programs on a depth ladder; every 'refuted' answer of the real code judged by an L0 run; violations attributed to findings F1/F2 by counterfactual re-run of the model with repair switches. Proof level pending BB/Props/C04.",
             "Trusted: Lean compiler for the driver, vlib orchestration, rustc; oracle budget (5e3 quick / 5e4 thorough base steps).",
